@@ -16,7 +16,7 @@
     * the hop is appended BEFORE the candidate list is decrypted; if that fails the handler aborts with the hop
       appended and the retry cache still in place;
     * the relay pairs a CREATED with its pending extend by the identifier alone (circuit id and sender are ignored);
-      since fix f3c2d31 it refuses to pair when the outgoing circuit id it reserved is meanwhile in use at this node.
+      since fix 172d874 it refuses to pair when the outgoing circuit id it reserved is meanwhile in use at this node.
 -/
 import Ipv8.C08.GenCrypto
 
